@@ -1420,9 +1420,16 @@ class ForAll(BinaryOperator):
                 # seed with all satisfying non-universal bindings
                 self.solution_set = current
             else:
-                # Intersect with previously accumulated satisfying bindings
-                current_set = {tuple(sorted(d.items())) for d in current}
-                self.solution_set = [d for d in self.solution_set if tuple(sorted(d.items())) in current_set]
+                # Intersect with previously accumulated satisfying bindings. A binding that leaves a variable unbound
+                # (e.g. from a disjunction that was satisfied without it) stands for every value of that variable,
+                # so two bindings meet when they agree on the variables they share.
+                met = {}
+                for d in self.solution_set:
+                    for c in current:
+                        if all(d[k] == c[k] for k in d.keys() & c.keys()):
+                            m = {**d, **c}
+                            met[tuple(sorted(m.items()))] = m
+                self.solution_set = list(met.values())
 
             var_val_index += 1
 
